@@ -25,7 +25,13 @@ constexpr bool kExact = false;
 
 constexpr uint32_t TAG_OK = 0x5CA1AB1Eu;
 constexpr uint32_t TAG_DEAD = 0xDEADDEADu;
-// tag 0: value-initialised storage (zero) — legitimate, value is zero.
+// A default-constructed scalar - default- or value-initialised alike - carries
+// TAG_UNSET and a poison value (NaN / -7777): the documented requirements on T
+// (Spline.h) promise zero only through static_cast<T>(0), and the library
+// itself never relies on T() being zero, so T() is modelled as "unspecified
+// value" - using one in arithmetic or a comparison, or leaving one in a live
+// spline, is reported like any other never-initialised scalar.
+constexpr uint32_t TAG_UNSET = 0x0BADC0DEu;
 
 #ifdef SIM_EXACT
 struct ValGuard {  // the exact field's own allocations are not fault points
@@ -43,7 +49,7 @@ class Num {
   Num(Raw, Val &&x) : v(static_cast<Val &&>(x)), tag(TAG_OK) {}
 
   static inline void use(const Num &a) {
-    if (__builtin_expect(a.tag != TAG_OK && a.tag != 0u, 0))
+    if (__builtin_expect(a.tag != TAG_OK, 0))
       tag_violation(a.tag, 0);
   }
   static Val copy_val(const Num &o) {
@@ -72,7 +78,11 @@ class Num {
   }
 
  public:
-  Num() = default;  // trivial in the real flavour: garbage tag when unset
+#ifdef SIM_EXACT
+  Num() noexcept : v(-7777), tag(TAG_UNSET) {}
+#else
+  Num() noexcept : v(__builtin_nan("")), tag(TAG_UNSET) {}
+#endif
 
   template <class A, std::enable_if_t<std::is_arithmetic_v<A>, int> = 0>
   explicit Num(A a) : v(from_arith(a)), tag(TAG_OK) {}
@@ -103,7 +113,7 @@ class Num {
   static Num make(Val x) { return Num(Raw{}, static_cast<Val &&>(x)); }
   const Val &raw() const { return v; }
   uint32_t raw_tag() const { return tag; }
-  bool tag_valid() const { return tag == TAG_OK || tag == 0u; }
+  bool tag_valid() const { return tag == TAG_OK; }
   uint64_t bits() const {
 #ifdef SIM_EXACT
     // canonical form (cpp_rational keeps fractions reduced): hash the limbs
